@@ -253,6 +253,9 @@ class AdapterProp(core.Prop):
             tags.append("fake-step")
         return core.Case(desc, line, wire.enc(tr), key=json.dumps(desc, sort_keys=True), nontrivial=early, tags=tags)
 
+    def runtime_failures_of_replay(self):
+        return list(RUNTIME_FAILURES)
+
     def extra_checks(self, tier, rng, report):
         seen = set()
         for what, desc in RUNTIME_FAILURES:
